@@ -77,6 +77,17 @@ fn rd_cmd(o: &Out) -> Option<(i64, u8, u32)> {
     }
 }
 
+/// A command value as an f32 chain of relays can carry it: beyond the f32 range it is +-inf (and stays so).
+fn f32_range(x: f64) -> f64 {
+    if x.abs() > f32::MAX as f64 {
+        x.signum() * f64::INFINITY
+    } else {
+        x
+    }
+}
+/// absolute slack (a few subnormal steps)
+const SUBNORMAL_SLACK: f64 = 1e-44;
+
 /// side-to-side command/state factor for a one-degree-of-freedom device
 fn relay_factor(spec: &DevSpec, from: usize, to: usize) -> Option<f64> {
     if from == to {
@@ -469,7 +480,7 @@ pub fn execute(plan: &Plan, ctx: &mut Ctx) {
                 if let Some((lj, (val, hops))) = known {
                     for (lk, &k) in ts.iter().enumerate() {
                         if let Some(f) = relay_factor(spec, lj, lk) {
-                            let nv = (val * f, hops + 1);
+                            let nv = (f32_range(val * f), hops + 1);
                             let e = knows.entry(k).or_insert(nv);
                             let _ = e;
                             if let Some(p) = model[k].partner {
@@ -502,6 +513,30 @@ pub fn execute(plan: &Plan, ctx: &mut Ctx) {
         for k in 0..nt {
             check_terminal_reads(ctx, i, code, k, &model, &snaps);
         }
+        // ---- the same reads while a shared borrow of the partner is alive (reading both ends of a link
+        // side by side is ordinary safe use): they must not panic and must return the same data
+        for k in 0..nt {
+            if let Some(p) = model[k].partner {
+                if p == k {
+                    continue;
+                }
+                let held = terms[p].borrow();
+                let again = guarded(|| snap_term(terms[k]));
+                drop(held);
+                match again {
+                    Ok(s2) => {
+                        if s2.rd_s != snaps[k].rd_s || s2.rd_c != snaps[k].rd_c || s2.rd_td != snaps[k].rd_td {
+                            viol2(ctx, &["C09"], "read_while_partner_borrowed", "terminal", format!("op {}: terminal {} reads differently while a shared borrow of its partner {} is alive", i, k, p));
+                        }
+                        ctx.count("reach.read_while_partner_borrowed");
+                    }
+                    Err(pn) => {
+                        viol2(ctx, &["C09"], "panic", "read_while_partner_borrowed", format!("op {}: reading terminal {} while a shared borrow of its partner {} is alive panicked: {:?} at {}", i, k, p, pn.msg, pn.short_loc()));
+                        break;
+                    }
+                }
+            }
+        }
 
         // ---- bounded progress (C13, over the recorded history)
         if let Some((tstar, kind)) = newest {
@@ -512,7 +547,7 @@ pub fn execute(plan: &Plan, ctx: &mut Ctx) {
                 let ok = match rd_cmd(&snaps[k].rd_c) {
                     Some((t, kd, b)) => {
                         let g = f32::from_bits(b) as f64;
-                        t == tstar && kd == kind && ((g - val).abs() <= 8.0 * (hops as f64 + 1.0) * 1.2e-7 * val.abs().max(g.abs()) + 1e-44 || !val.is_finite())
+                        t == tstar && kd == kind && ((g - val).abs() <= 8.0 * (hops as f64 + 1.0) * 1.2e-7 * val.abs().max(g.abs()) + (hops as f64 + 1.0) * SUBNORMAL_SLACK || !val.is_finite() || !g.is_finite())
                     }
                     None => false,
                 };
@@ -877,8 +912,8 @@ fn check_update(
                     let tie_conflict = creads.iter().enumerate().any(|(l, c)| match c {
                         Some((t, kd, b)) if *t == tstar && l != j => {
                             let f = relay_factor(spec, l, j).unwrap_or(1.0);
-                            let w = f32::from_bits(*b) as f64 * f;
-                            *kd != kind || (w - v).abs() > 5e-7 * v.abs().max(w.abs()) + 1e-44
+                            let w = f32_range(f32::from_bits(*b) as f64 * f);
+                            *kd != kind || w != v && !(w.is_finite() && v.is_finite() && (w - v).abs() <= 5e-7 * v.abs().max(w.abs()) + SUBNORMAL_SLACK)
                         }
                         _ => false,
                     });
@@ -895,7 +930,7 @@ fn check_update(
                         }
                         for (l, &k) in ts.iter().enumerate() {
                             let f = relay_factor(spec, j, l).unwrap_or(1.0);
-                            let want = v * f;
+                            let want = f32_range(v * f);
                             match rd_cmd(&post[k].rd_c) {
                                 None => viol2(ctx, &["C13"], "relay", comp, format!("op {}: terminal {} (local {}) reads no command after the update; the newest readable one was {} at local {}", i, k, l, show_c(&creads[j]), j)),
                                 Some((gt, gk, gb)) => {
@@ -904,7 +939,7 @@ fn check_update(
                                         viol2(ctx, &["C03", "C13"], "relay_time", comp, format!("op {}: terminal {} (local {}) reads a command stamped {} but the newest readable one is stamped {}", i, k, l, gt, tstar));
                                     } else if gk != kind {
                                         viol2(ctx, &["C13"], "relay_kind", comp, format!("op {}: terminal {} (local {}) reads kind {} but the newest command has kind {}", i, k, l, gk, kind));
-                                    } else if want.is_finite() && (g - want).abs() > 2e-6 * want.abs().max(g.abs()) + 1e-44 {
+                                    } else if want.is_finite() && g.is_finite() && (g - want).abs() > 2e-6 * want.abs().max(g.abs()) + SUBNORMAL_SLACK {
                                         viol2(ctx, &["C13"], "relay_value", comp, format!("op {}: terminal {} (local {}) reads {:e}; the newest command {:e} at local {} maps to {:e}", i, k, l, g, v, j, want));
                                     }
                                 }
